@@ -57,7 +57,7 @@ def sleepers_scenario(sh: Shard, seed, idx, regime):
         raised = []  # config_sleep calls that raised although nobody cancelled the sleeper
 
         async def sleeper(i):
-            delays = [r.choice([0.05, 0.5, 1, 2, 5, 30, 60, 120]) for _ in range(200)]
+            delays = [r.choice([0.05, 0.5, 1, 2, 5, 30, 60, 120, 0, 0.0, -1, 0.001]) for _ in range(200)]
             await asyncio.sleep(r.uniform(0, 3))
             k = 0
             while not stop["v"]:
@@ -71,6 +71,9 @@ def sleepers_scenario(sh: Shard, seed, idx, regime):
                         raised.append((i, s, d, w.now, type(e).__name__))
                     raise
                 sleeps.append((i, s, d, w.now))
+                if d <= 0:
+                    sh.count("sleeps_with_zero_or_negative_delay")
+                    await asyncio.sleep(0.05)  # (a caller looping on a zero delay must not starve the others)
                 if r.random() < 0.3:
                     await asyncio.sleep(r.choice([0, 0.01, 0.2]))
 
@@ -138,7 +141,7 @@ def sleepers_scenario(sh: Shard, seed, idx, regime):
         for (i, s, d, e) in sleeps:
             sh.count("sleeps_observed")
             wit = {"scenario": f"{seed}:{idx}", "sleepers": n, "sleeper": i, "start": round(s, 4), "delay": d, "end": round(e, 4), "regime": regime, "switches": [round(x[0], 4) for x in switches]}
-            if e - s > d + late + stalls + 0.005:
+            if e - s > max(d, 0) + late + stalls + 0.005:
                 sh.violation("C17:overslept", f"a sleeper asked for {d}s and slept {e - s:.3f}s", wit)
             inside = [sw for sw in switches if s < sw[0] and sw[1] < e - (0.002 + stalls + late)]
             # a switch strictly inside the sleep interval must have ended the sleep at once
@@ -210,6 +213,15 @@ def facade_scenario(sh: Shard, seed, idx, regime):
                     exp = expected()
                     sh.see("on_off_combinations", tuple(dd.is_on for dd, _ in refs))
                     check_table(sh, exp, "device-change", dict(wit0, changed=d.key, raw=raw, states=[(dd.key, str(dd.is_on)) for dd, _ in refs]))
+                if refs and r.random() < 0.7:
+                    # somebody else switches the mode under the facade's feet (another client object
+                    # of the process, a direct call): the live facade's next update - which the switch
+                    # itself wakes - must put the table back to what its pumps and blowers say
+                    C.set_config_mode(not expected())
+                    await asyncio.sleep(r.choice([15, 30]))
+                    sh.evaluations += 1
+                    sh.count("foreign_mode_switches_under_a_live_facade")
+                    check_table(sh, expected(), "after-foreign-switch", dict(wit0, states=[(dd.key, str(dd.is_on)) for dd, _ in refs]))
                 await facade.disconnect()
                 # while nobody is watching, the spa changes (e.g. pumps go off / come on)
                 if refs:
@@ -346,10 +358,11 @@ def main(tier, seed):
     run.need(run.counters.get("library_sleepers_woken", 0) > 40, "the library's own sleepers (ping loop, retry pause) were hardly probed")
     run.need(run.counters.get("sleepers_cancelled_mid_sleep", 0) > 20, "no sleeper was cancelled in the middle of a sleep")
     run.need(run.counters.get("unobserved_changes_between_facades", 0) > 10, "facade rebuild after unobserved changes not exercised")
+    run.need(run.counters.get("foreign_mode_switches_under_a_live_facade", 0) > 10 and run.counters.get("sleeps_with_zero_or_negative_delay", 0) > 50, "no foreign mode switch under a live facade / no zero-delay sleeps")
     run.need(len(run.sets.get("on_off_combinations", set())) >= 6, "too few on/off combinations of pumps and blowers")
     run.need({"True", "False"} <= run.sets.get("facade_first_update_expected", set()), "first facade update never expected both active and idle")
     return run.finish(
-        rule="(a,b) 1-50 looping config_sleep callers with drawn delays (0.05-120 s) and start times around 1-15 mode switches at drawn instants (incl. two switches in one instant), regimes B/J: table completeness after every switch, every sleep <= its delay, every switch strictly inside a sleep ends it at once; (c) real facade on a connected client over five snapshots: drawn pump/blower state changes, facade rebuilds after unobserved changes; one evaluation = one scenario / facade step; distinct = distinct scenarios",
+        rule="(a,b) 1-50 looping config_sleep callers with drawn delays (0.05-120 s, also 0, 0.001 and negative) and start times around 1-15 mode switches at drawn instants (incl. two switches in one instant), regimes B/J: table completeness after every switch, every sleep <= its delay, every switch strictly inside a sleep ends it at once; (c) real facade on a connected client over five snapshots: drawn pump/blower state changes, a foreign mode switch under the live facade, facade rebuilds after unobserved changes; one evaluation = one scenario / facade step; distinct = distinct scenarios",
         assumptions=["members are enumerated from the three table classes (upper-case attributes)", "a first-ever switch before any config_sleep trips an assert in the library and is only counted (the statement does not cover it)", "'at once' = within 2 ms of virtual time plus injected lateness/stalls"],
     )
 
